@@ -268,3 +268,16 @@ def c18(prop, tier):
     return case_check(prop, tier, "Ingress.tla", "Ingress.cfg",
                       ["ingress", "-limits", "-cases", "{cases}", "-tier", "{tier}", "-seed", "{seed}"],
                       "13 write paths x max_blob_size in {size-1, size, size+1}", CASE_ASSUME)
+
+
+@check("C10")
+def c10(prop, tier):
+    t0 = time.time()
+    extra = []
+    r2 = model_check("FindMissing/N", "FindMissing.tla", "FindMissing_N.cfg", workers=8)
+    extra.append(("FindMissing_N", r2, "all request lists of length <= 4 over 6 digest classes, batch size 2, no backend"))
+    return case_check(prop, tier, "FindMissing.tla", "FindMissing_B.cfg",
+                      ["findmissing", "-cases", "{cases}", "-tier", "{tier}", "-seed", "{seed}"],
+                      "all request lists of length <= 4 over 6 digest classes, batch size 2, 2 backend workers, all interleavings; liveness: the request terminates",
+                      CASE_ASSUME + ["the worker interleaving of the real code is not controlled in the replay; it is explored exhaustively only in the model"],
+                      t0=t0, extra_models=extra)
